@@ -3,7 +3,8 @@
   c18 session <cfg> L <n> <lexcode>*n  P <k> (<name> <tyid>)*k  O <k> <name>*k
               A <nadds> <items>*nadds  Q <nq> (<len> <name>*len)*nq
 
-  cfg      4 bits `walkFromStart emptyPathPanics ignoreSpan primRecursive` (e.g. 0000 = Cfg.fixed)
+  cfg      4 bits `walkFromStart emptyPathPanics ignoreSpan primRecursive` (e.g. 0000 = Cfg.fixed), optionally a
+           fifth `implAtSite`
   lexcode  first + 8*more + 16*whole, first: 0 end-of-input, 1 lexer error, 2 ident, 3 keyword, 4 other token
   items    <k> item*k ;  item = M name items | T name id | F name np ty*np ty tag
            | C name ty tag | I id items | U np (len name*len)*np
@@ -82,7 +83,8 @@ def lexOf (c : Nat) : Lex :=
 
 def cfgOf (s : String) : Option Cfg :=
   match s.toList with
-  | [a, b, c, d] => some ⟨a = '1', b = '1', c = '1', d = '1'⟩
+  | [a, b, c, d] => some ⟨a = '1', b = '1', c = '1', d = '1', false⟩
+  | [a, b, c, d, e] => some ⟨a = '1', b = '1', c = '1', d = '1', e = '1'⟩
   | _ => none
 
 def showErr : Err → String
